@@ -73,3 +73,11 @@ package sqlx
 //@   flag callbacks_noheap
 //@   requires db.beginTx != fn && db.connProv != fn && db.connProv != db.beginTx && db.onError != fn && db.onError != db.beginTx
 //@   call transact#0: assert arg_db == db && arg_b == db.beginTx && arg_fn == fn
+
+// C11: the bulk inserter's container hands its whole batch over and starts the next one in a NEW slice (the batch being
+// executed must not share storage with the rows inserted meanwhile)
+//@ func (in *dbInserter) RemoveAll
+//@   property C11
+//@   requires in != nil
+//@   ensures len(result.([]string)) == old(len(in.values)) && len(in.values) == 0 && in.values == nil
+//@   modifies in.values
